@@ -43,6 +43,7 @@ def run_cli(binp, files, args, cwd_files=None, stdin=None, env=None, timeout=60,
         e["XDG_CONFIG_HOME"] = os.path.join(d, ".xdg")
         if env:
             e.update(env)
+        args = [a.replace("{ROOT}", d) for a in args]       # absolute spellings of files of the scenario tree
         r = subprocess.run([binp] + list(args), cwd=os.path.join(d, cwd_rel) if cwd_rel else d, input=(stdin.encode() if isinstance(stdin, str) else stdin),
                            capture_output=True, timeout=timeout, env=e)
         after = _snap(d)
